@@ -15,6 +15,16 @@ var VerifListenTCP = func(network string, laddr *net.TCPAddr) (net.Listener, err
 
 var VerifDialTCP = net.DialTCP
 
+// VerifDialConn: the active-mode dial when the socket's connection field could be widened to net.Conn (see
+// driver/overlay.py); the simulation routes it to the simulated kernel.
+var VerifDialConn = func(network string, laddr, raddr *net.TCPAddr) (net.Conn, error) {
+	c, err := net.DialTCP(network, laddr, raddr)
+	if err != nil {
+		return nil, err
+	}
+	return c, nil
+}
+
 // VerifResolveTCPAddr replaces net.ResolveTCPAddr: inside the simulation there is no resolver - a host that is
 // not an IP literal (a client can put anything into a PORT command) fails like an unknown name would, at once,
 // instead of starting a real DNS lookup from inside the bubble.
